@@ -250,7 +250,7 @@ impl Check for HistoryCheck {
             earlier.push(Earlier::Run { cfg, acts });
         }
         let last_cfg = decode_cfg(&mut ct, &self.profile, n, INTR);
-        let r1 = run_on(&mut g, facts.clone(), &last_cfg, Schedule::Tape(&mut st, self.max_actions));
+        let r1 = run_on(&mut g, facts.clone(), &last_cfg, Schedule::Tape(&mut st, self.max_actions, None));
         let mut g2 = build_graph(&spec);
         let r2 = run_on(&mut g2, facts, &last_cfg, Schedule::Strict(&r1.acts));
         execs += 2;
